@@ -159,13 +159,14 @@ def via_wsgi(ctx, chunks, form):
         hdrs.append(("Content-Length", str(sum(map(len, chunks)))))
     req = drivers.Req(method="POST", headers=hdrs, chunks=chunks)
     env = drivers.to_environ(req)
+    inp = env["wsgi.input"]
     r = wsgi.Request(env)
     if form.get("body_first") or sum(map(len, chunks)) % 3 == 0:
         # the whole body is read (and cached) first: the form must then be decoded from the replayed bytes
         if r.body != b"".join(chunks):
             raise GrammarError("body-differs-from-the-bytes-sent")
     out = norm(r.form.multi_items())
-    if env["wsgi.input"].reads_after_eof:
+    if inp.reads_after_eof:
         raise GrammarError("wsgi.input-read-after-eof")
     return out
 
@@ -205,6 +206,94 @@ def via_asgi(ctx, chunks, form):
     if files != box["async"]:
         raise GrammarError("upload-async-read-differs-from-sync-read")
     return out
+
+
+def two_at_once(ctx, rng, forms=None, sizes=None):
+    """two (three) forms are decoded at the same time on one event loop - each stream gives way to the other after every chunk - and,
+    for the sync helper, by generators advanced in rotation (what a threaded server's interleaving amounts to): each decodes to its own parts"""
+    import asyncio
+
+    from baize.datastructures import UploadFile
+    from baize.multipart_helper import parse_async_stream, parse_stream
+    if forms is None:
+        forms = [MC.gen_form(rng, max_parts=3) for _ in range(rng.choice([2, 2, 3]))]
+        if rng.random() < 0.5:
+            for f in forms[1:]:
+                f["boundary"] = forms[0]["boundary"]  # the same client library: the same boundary
+    enc = []
+    for f in forms:
+        try:
+            body, spans = MC.encode(f)
+        except Exception:
+            return None
+        if any((b"--" + f["boundary"]) in p["content"] for p in f["parts"]):
+            return None
+        size = sizes[len(enc)] if sizes else rng.choice([1, 2, 3, 5, 7, 16])
+        enc.append((f, [body[j:j + size] for j in range(0, len(body), size)], MC.expected(f)))
+    case = {"forms_decoded_at_the_same_time": [f for f, _, _ in enc], "chunk_sizes": [len(c[0]) if c else 0 for _, c, _ in enc]}
+    got = {}
+
+    async def one(j, f, chunks):
+        async def agen():
+            for c in chunks:
+                yield c
+                await asyncio.sleep(0)
+        try:
+            got[j] = norm(await parse_async_stream(agen(), f["boundary"], "utf8", file_factory=UploadFile))
+        except Exception as e:  # noqa
+            got[j] = ("raised", type(e).__name__, str(e)[:100])
+
+    async def both():
+        await asyncio.gather(*[one(j, f, chunks) for j, (f, chunks, _) in enumerate(enc)])
+    drivers.loop().run_until_complete(both())
+    ctx.mon("decoded-at-the-same-time")
+    for j, (f, chunks, exp) in enumerate(enc):
+        if got.get(j) != exp:
+            ctx.violation("parts-differ|decoded-at-the-same-time|async", dict(case, form_number=j), f"got {str(got.get(j))[:200]}; alone {str(exp)[:200]}")
+            return case
+    # sync: the chunk streams are generators that a scheduler advances in rotation (each parse in its own thread, handed the baton per chunk)
+    import threading
+    turn = [0]
+    cv = threading.Condition()
+    alive = [True] * len(enc)
+    sgot = {}
+
+    def stream(j, chunks):
+        for c in chunks:
+            with cv:
+                while turn[0] != j:
+                    cv.wait(5)
+            yield c
+            with cv:
+                nxt = [(j + d) % len(enc) for d in range(1, len(enc) + 1) if alive[(j + d) % len(enc)]]
+                turn[0] = nxt[0] if nxt else j
+                cv.notify_all()
+
+    def work(j, f, chunks):
+        try:
+            sgot[j] = norm(parse_stream(stream(j, chunks), f["boundary"], "utf8", file_factory=UploadFile))
+        except Exception as e:  # noqa
+            sgot[j] = ("raised", type(e).__name__, str(e)[:100])
+        finally:
+            with cv:
+                alive[j] = False
+                nxt = [(j + d) % len(enc) for d in range(1, len(enc) + 1) if alive[(j + d) % len(enc)]]
+                if nxt:
+                    turn[0] = nxt[0]
+                cv.notify_all()
+    ts = [threading.Thread(target=work, args=(j, f, chunks), daemon=True) for j, (f, chunks, _) in enumerate(enc)]
+    for t in ts:
+        t.start()
+    for t in ts:
+        t.join(30)
+    if any(t.is_alive() for t in ts):
+        ctx.count("decoded-at-the-same-time:sync-threads-stuck(not judged)")
+        return case
+    for j, (f, chunks, exp) in enumerate(enc):
+        if sgot.get(j) != exp:
+            ctx.violation("parts-differ|decoded-at-the-same-time|sync", dict(case, form_number=j), f"got {str(sgot.get(j))[:200]}; alone {str(exp)[:200]}")
+            return case
+    return case
 
 
 PATHS = ("events", "sync", "async", "wsgi-form", "asgi-form")
@@ -443,6 +532,9 @@ def run(ctx):
         case = stateful(ctx, rng)
         ctx.case(("stateful", repr(case)))
     ctx.sample("stateful", {"kind": "two decoders fed alternately / abandoned parse then fresh parse, same boundary"})
+    for i in range(ctx.scale(60, 4000)):
+        case = two_at_once(ctx, rng)
+        ctx.case(("two-at-once", repr(case)) if case else None)
     # bigger contents (several KB) with sparse cuts through every path
     for i in range(ctx.scale(40, 6000)):
         form = MC.gen_form(rng, max_parts=3)
@@ -490,6 +582,13 @@ def run(ctx):
 
 
 def replay(ctx, case):
+    if "forms_decoded_at_the_same_time" in case:
+        forms = case["forms_decoded_at_the_same_time"]
+        for f in forms:
+            f["boundary"] = bytes(f["boundary"])
+        two_at_once(ctx, None, forms, [max(1, n) for n in case["chunk_sizes"]])
+        ctx.case(1)
+        return
     form = case["form"]
     form["boundary"] = bytes(form["boundary"])
     body, spans = MC.encode(form)
